@@ -219,7 +219,11 @@ def r11a(fb, rep):
         region = cb.reachable(blk) - set()
         comp = [c for c in cb.calls() if c.bb in region and c.res.endswith("Compiler::<'a>::compile")]
         cj = [i for i in flow.blocks_constructing(cb, INSTR, "CJump") if i in region]
-        if len(comp) >= 2 and cj and cb.dominates(comp[0].bb, cj[0]) and any(cb.dominates(cj[0], c.bb) for c in comp[1:]):
+        # exactly two operand compilations: lhs before the conditional jump, rhs after it
+        excl = cb.reachable(blk) - cb.reachable(others) if False else region
+        mine = [c for c in comp if c.bb in (cb.reachable(blk) - cb.reachable([v for k, v in tab.items() if k != opname and v != blk and not cb.dominates(blk, v)]))]
+        comp = mine or comp
+        if len(comp) == 2 and cj and cb.dominates(comp[0].bb, cj[0]) and cb.dominates(cj[0], comp[1].bb):
             rep.ok(R, "`%s`: compile(lhs); emit(CJump); compile(rhs) — rhs is evaluated conditionally" % opname)
         else:
             rep.violation(R, "short-circuit-shape|%s" % opname, "`%s` no longer compiles its right operand behind a conditional jump" % opname, cb.where())
